@@ -12,508 +12,552 @@ Definition show_fres (r : fres) : string :=
   end.
 Definition check (rs : list rune) : string := digest (show_fres (format_res rs)).
 Definition full (rs : list rune) : string := show_fres (format_res rs).
-Eval vm_compute in ("<<<M1732>>>" ++ check (runes_of_ascii "packet Z9_ {
-    @calculatedFrom(""1"")
-    match body as u8x {
-        [7] : u,
-        [
-            7, 00, 00, ""a\""b"", """",
-            ""\n""
-        ] : charz,
-        1 : Packet,
-        """ ++ [28040; 24687]%N ++ runes_of_ascii """ : f32a,
-        00 : len,
-    },
-    @lengthOf(calculatedFrom)
-    MetaDataX,
-    Packet @lengthOf(int),
-    repeat char[7] calculatedFrom,
-    @calculatedFrom(""a\\"")
-    zchar[255] f32a @calculatedFrom(""" ++ [233]%N ++ runes_of_ascii "t" ++ [233]%N ++ runes_of_ascii """),
-    @calculatedFrom(""a\""b"")
-    char[7] i8i8 @calculatedFrom(""a\\"") `crlf
-    line`,
-    zchar[0123456789] x `line1
-    line2`,
-    @leftPad()
-    repeat u64 stringy,
-    @lengthOf(x)
-    repeat body {
-        //	t
-        Z9_ {
-            repeat asx,
-            repeat crc i64_,
-            repeat rootA {
-                repeat rootA MetaDataX `line1
-                line2`,
-                match i64_ as calculatedFrom {
-                    7 : x,
-                    [7] : stringy,
-                    ""1"" : i8i8,
-                    [
-                        42, 10, 255, 0, 10,
-                        ""1"", """ ++ [233]%N ++ runes_of_ascii "t" ++ [233]%N ++ runes_of_ascii """
-                    ] : u,
-                    ""x y"" : i8i8,
-                },
-                uint64 _x `
-                `,
-                char[0] i64_ @calculatedFrom(""CRC32""),
-            },
-            x_y_z {
-                char[] T,
-            },
-        },
-        repeat u64 Foo `a\`,
-        uint8 uint8x,
-        match roots as chars {
-            1 : _x,
-            ""a\""b"" : uint8x,
-            42 : metadata,
-            // `tick` ""quote"" 'q'
-            [255, ""\n""] : zchar,
-            [3, 4294967296, 0123456789, """ ++ [233]%N ++ runes_of_ascii "t" ++ [233]%N ++ runes_of_ascii """, ""x y""] : metadata,
-            [""it's"", ""// no comment""] : Z9_,
-        },
-    },
-}// a // b
-
-MetaData rootA {
-    char[4294967296] msg_type,
-    char[] u128,
-    uint64 a1,
-    int8 crc,
-    Pad msg_type `doc`,
-}
-
-//	t
-/// triple
-packet x_y_z {
-    @lengthOf(crc)
-    match packetx as f32a {
-        0123456789 : A,
-        00 : u,
-        // @lengthOf(
-    },
-}")).
-Eval vm_compute in ("<<<M1892>>>" ++ check (runes_of_ascii "root
-packet metadata
-{
-@lengthOf( options1  ) int32	zchar	@calculatedFrom(
-""// no comment"" )`
-`  ,
-
-repeat
-
-    calculatedFrom 
-`it's`
-,	//
-match
-BodyLength
-
-    as
-lengthOf
-
-{  3/// triple
-  :  leftPad ,
-	}
-	,repeat
-	u128
-
-,  char[ 10
-
-    ] 
-chars, // @lengthOf(
-
-  falsey @calculatedFrom(  ""x y""
-
-    ) 	 // c
-    `{ , }` ,  @tag(
-42
-
-    )
-    float64
-    i64_
-
-// packet A { u8 x, }
-	,
-	u8x
-
-@calculatedFrom(
-
-""{,}"" )
-
-`two words` 
-
-    //	t
-    	// trailing space 
-  ,	@lengthOf(
-T
-)	char[
-
-    255
-
-] pack 
-`it's`, 
-match	MetaDataX
-    as
-	i64_
-
-    { 
-    //
-""" ++ [28040; 24687]%N ++ runes_of_ascii """	// @lengthOf(
-		:  Header,
-0 
-
-    //
-	:x_y_z
-	3
-: // `tick` ""quote"" 'q'
-
-  int
-
-    ""abc""
-
-    // @lengthOf(
-	: u8x
-	,}, } packet i64_{
-
-    @rightPad 
-()	/// triple
-	pack 
-{match
-    MetaDataX
-as 
-trueish
-{ 1  // @lengthOf(
-: len
-	00: falsey // packet A { u8 x, }
-,
-    """" : 
-x  ,
-}	,
-} ,@tag( 1)
-
-char[]
-
-    int
-
-    @lengthOf( metadata
-
-)// packet A { u8 x, }
-    ,
-a1 @lengthOf(calculatedFrom
-
-)
-,
-    @tag(7
-    )
-tag
-	@lengthOf( u) , 
-BodyLength	/// triple
-	@calculatedFrom(  ""it's""  )	`say ""hi""`
-
-,  string
-
-msg_type
-
-,  }
-
-    MetaData
-
-Logon	{
-BodyLength
-	_x
-`it's`
-	,
-    int32 
+Eval vm_compute in ("<<<M1562>>>" ++ check (runes_of_ascii "
+packet Z9_	//x
+    {@calculatedFrom(
+	""1"" ) match 
 body
-
-    , 
-    // trailing space 
-
-} root packet 
-body
-	{  }
-
-")).
-Eval vm_compute in ("<<<M1866>>>" ++ check (runes_of_ascii "
-
-  options { matchKey
-
-=
-
-    ""x y"" 
-; MetaDataX
-
-=
-	'0'
-
-    ;  }  packet	// c
-
-msg_type 
-{
-@rightPad(
-
-    ' ' )repeat  u128 body  ,match
-    body as /// triple
-    	pack {  [	""\" ++ [233]%N ++ runes_of_ascii """,
-
-""1""] 
-:
-
-BodyLength 
-,
-
-[
-255 ,""a	b""
-    , ""a\\""
-
-, ""{,}""
-    ,
-    007 ,
-	007 ,  0123456789
-
-    ]:
-    options1 
-,} 
-, @leftPad (
-	)
-@lengthOf( charz
-) @tag( 42
-
-    )	o
-
-    {i32
-
-    msg_type
-
-@lengthOf( A) // " ++ [27880; 37322]%N ++ runes_of_ascii "
-    	`doc`
-,
-	zchar[ 1
-] 
-charz,	// c
-  i8	packetx
-`{ , }`,
-
-    msg_type
-    `crlf
-line`
-
-    ,	}
-, @calculatedFrom( ""\" ++ [233]%N ++ runes_of_ascii """
-)	Z9_
-
-@calculatedFrom( """ ++ [128512]%N ++ runes_of_ascii """ 
-) `tab	here`
-    ,
-repeat
-    char[]
-
-Foo,
-
-repeat
-
-    zchar[
-
-    0123456789]u128  , }packet f32a  { 
-f32a
-
-    @lengthOf(matchKey)	//x
-    	,
-	@rightPad (
-	' ' // " ++ [27880; 37322]%N ++ runes_of_ascii "
-	  ) 
-@lengthOf(chars	)
-_x Foo `` , 
-match
-    body  // c
-
 	as
-	body{[
-
-4294967296,
-    ""packet"" 
-,3 
-,  """ ++ [128512]%N ++ runes_of_ascii """ ,0123456789
-
-    ] :
-T  [
-""a\\""
-    ]	// `tick` ""quote"" 'q'
-
-:
-    T 
-,
-	""\n"":
-
 u8x
 
-, 
-} 
-  //	t
-    	//x
-    ,
-}//x
-
-	root
-
-packet
-lengthOf  { }
-")).
-Eval vm_compute in ("<<<M176>>>" ++ check (runes_of_ascii "
-packet i8i8 { @tag( 0 ) int32
-leftPad `it's`
-, repeat char[]Header`crlf
-line`
-, @calculatedFrom( ""\" ++ [233]%N ++ runes_of_ascii """ )/// triple
-repeat
-    uint8 float , @rightPad
-('\x00' ) char[] zchar@lengthOf(
-// a // b
-//x
-leftPad )
-`
-` , Z9_ ,
-@lengthOf(
-x ) match As as
-    tag {	""a	b""  :
-string_ [
-10 , 7 , ""1"" , 255
+    {[7
+	] :
+u
+,	[ 7,
+    00 
+, ""a\""b""
+,""""
 ,
-3
-    , 42 ,
-    //
-    0123456789, """ ++ [128512]%N ++ runes_of_ascii """ ] :x_y_z ,""CRC32""
-: Z9_  , 00
-    // c
-    : Logon
+
+    ""\n"" 
+, 00
+
+]
+
+    :
+charz , 1
+
+    :	// c
+    	Packet ,""" ++ [28040; 24687]%N ++ runes_of_ascii """ :
+    f32a
+    ,  00 :	// trailing space 
+    len
+	}	,
+
+    @lengthOf(  calculatedFrom
+
+) MetaDataX
+
     ,
-} , @tag(007) o {
-    char
-    Packet
-@lengthOf(
+
+Packet @lengthOf(
+
+    int )
+    ,  repeat 	 // `tick` ""quote"" 'q'
+char[	7 
+]
+calculatedFrom,
+@calculatedFrom(
+""a\\""
+	)
+	zchar[ 	 //
+	255 // " ++ [128512]%N ++ runes_of_ascii " emoji
+	]f32a@calculatedFrom(
+    """ ++ [233]%N ++ runes_of_ascii "t" ++ [233]%N ++ runes_of_ascii """  ) 
+,
+@calculatedFrom(
+""a\""b"" // packet A { u8 x, }
+)char[
+	7 
+
     //	t
-    repeatCount
-) , } , @lengthOf(
-// " ++ [27880; 37322]%N ++ runes_of_ascii "
-/// triple
-pack
-) float64 rootA `two words`
-    ,	repeat char[] BodyLength ,}
-packet Z9_{ match
-    // packet A { u8 x, }
-    As
-as
-    a1{ //
-0: trueish // `tick` ""quote"" 'q'
-,} ,
-/// triple
-// " ++ [27880; 37322]%N ++ runes_of_ascii "
-} root packet u8x {
-/// triple
-// " ++ [128512]%N ++ runes_of_ascii " emoji
-repeat
-string Logon `tab	here` , // " ++ [128512]%N ++ runes_of_ascii " emoji
-}	options { _x
-=
-    ""packet""
-;f32a =007 } packet i8i8 {@calculatedFrom( ""CRC32"" )
-A @lengthOf(
-a1
+    ]
+
+    i8i8
+	@calculatedFrom(
+
+    ""a\\""
+    )
+
+    `crlf
+line`
+,
+
+zchar[ 0123456789
+    ]
+
+    x  `line1
+line2`
+
+    ,@leftPad
+
+( 
 )
-, } 	 ")).
-Eval vm_compute in ("<<<M1605>>>" ++ check (runes_of_ascii "// top
+repeat
+u64
+stringy
+,
+	@lengthOf(	x )
+repeat  body {//	t
+  Z9_ {
+repeat	asx  , repeat 
+crc
+    i64_// " ++ [27880; 37322]%N ++ runes_of_ascii "
+    ,
+
+repeat rootA
+{  repeat rootA MetaDataX
+    `line1
+line2`
+        // `tick` ""quote"" 'q'
+	,
+match
+i64_ 
+as 
+calculatedFrom	{
+
+7 : x
+[	7]
+:stringy	,
+
+    ""1"" 
+: i8i8,
+
+[ ""1"" ,
+42
+    ,
+        // trailing space 
+/// triple
+		""" ++ [233]%N ++ runes_of_ascii "t" ++ [233]%N ++ runes_of_ascii """	, 
+10 ,
+
+255
+	,	0 
+,
+
+10 
+]
+    : u ,
+
+""x y"" 
+:
+
+    i8i8 } 
+
+// `tick` ""quote"" 'q'
+
+//x
+,
+uint64
+	_x
+`
+` , 
+char[
+
+0
+
+]
+	i64_
+
+@calculatedFrom( ""CRC32"" )
+    ,
+	},
+
+x_y_z{	char[]T 
+	// a // b
+  	// @lengthOf(
+    ,
+}
+
+, }
+	,  repeat
+	u64
+
+Foo	`a\`, 
+uint8
+
+    uint8x
+
+,  match 
+
+    //	t
+
+  // trailing space 
+	roots
+	as chars
+{
+
+1	: _x
+""a\""b""
+    :
+
+uint8x
+    , 
+42:metadata// " ++ [128512]%N ++ runes_of_ascii " emoji
+	,// `tick` ""quote"" 'q'
+
+[// @lengthOf(
+  	""\n""	,
+    255
+    ] :
+zchar [
+""" ++ [233]%N ++ runes_of_ascii "t" ++ [233]%N ++ runes_of_ascii """
+,
+3  ,
+
+4294967296
+,  // trailing space 
+
+  0123456789 ,
+
+""x y""
+]
+
+: metadata
+    [ // c
+
+	""it's""
+, ""// no comment"" ]: 
+Z9_,
+}
+
+,
+} , }	// a // b
+
+MetaData
+rootA
+{ char[	4294967296  ]	msg_type
+
+,// @lengthOf(
+
+	char[]u128
+	,uint64 a1
+    ,int8 
+crc ,	Pad
+
+msg_type `doc` 
+,
+	} 
+    //	t
+
+/// triple
+    packet x_y_z	{  @lengthOf(crc  ) match packetx
+as
+    f32a
+
+{ 0123456789
+    : A
+	,  00 :
+
+    u  // @lengthOf(
+	} 
+, }
+
+")).
+Eval vm_compute in ("<<<M1863>>>" ++ check (runes_of_ascii "MetaData Pad {
+    char[] Packet,
+    f32a i64_ `tab	here`,
+}
+
+root packet As {
+    @calculatedFrom(""CRC32"")
+    @calculatedFrom(""1"")
+    @calculatedFrom(""// no comment"")
+    As As `say ""hi""`,
+    Foo msg_type,
+    calculatedFrom @calculatedFrom(""\n""),
+    zchar {
+        zchar[7] charz @calculatedFrom(""x y""),
+        Z9_ `{ , }`,
+        repeat int {
+            zchar[3] i8i8 @lengthOf(chars),
+            match zchar as o {
+                1 : u128,
+                0 : stringy,
+                42 : charz,
+                ""x y"" : a1,
+                3 : Header,
+                4294967296 : o,
+            },
+            repeat Header `two words`,
+            match u8x as u8x {
+                [10] : pack,
+                1 : BodyLength,
+                //
+                // " ++ [27880; 37322]%N ++ runes_of_ascii "
+                0 : MetaDataX,
+                42 : calculatedFrom,
+            },
+        },
+    },// " ++ [27880; 37322]%N ++ runes_of_ascii "
+}
+
+// `tick` ""quote"" 'q'
+/// triple
+packet i64_ {
+}
+
+root packet x {
+    Header {
+        char[0] _x `// not a comment`,
+    },
+    @lengthOf(A)
+    uint32 f32a @calculatedFrom(""abc""),
+    repeat i16 trueish `u8 x,`,
+    @rightPad(' ')
+    @calculatedFrom(""a\\"")
+    float,
+    repeat char[7] zchar,
+    @tag(10)
+    repeat a1 falsey `say ""hi""`,
+    @lengthOf(len)
+    repeat zchar[00] uint8x,
+}
+
+MetaData metadata {
+    u8 body,
+}")).
+Eval vm_compute in ("<<<M231>>>" ++ check (runes_of_ascii "root packet
+    metadata {  @lengthOf(
+options1
+) int32 zchar @calculatedFrom(""// no comment"" ) `
+` , repeat calculatedFrom `it's`, //
+match
+    BodyLength as lengthOf
+{ 3 /// triple
+:	leftPad , }, repeat
+u128, char[ 10
+] chars  ,// @lengthOf(
+falsey
+@calculatedFrom( ""x y"") // c
+`{ , }` ,	@tag(42
+)	float64
+    i64_
+    // packet A { u8 x, }
+    , u8x@calculatedFrom(  ""{,}"" ) `two words`
+//	t
+// trailing space 
+, @lengthOf(T)
+char[	255]  pack `it's`
+,match MetaDataX
+as i64_{
+    //
+    """ ++ [28040; 24687]%N ++ runes_of_ascii """ // @lengthOf(
+:Header , 0
+    //
+    : x_y_z 3 : // `tick` ""quote"" 'q'
+int""abc""
+    // @lengthOf(
+    : u8x ,
+    } , } packet i64_
+{@rightPad ( ) /// triple
+pack {
+match MetaDataX
+    as trueish { 1 // @lengthOf(
+:
+    len
+00	: falsey // packet A { u8 x, }
+,"""" :
+x ,
+}, } , @tag(1) char[]int @lengthOf(	metadata
+) // packet A { u8 x, }
+, a1 @lengthOf( calculatedFrom ) ,
+    @tag( 7
+    )tag@lengthOf(u ) , BodyLength /// triple
+@calculatedFrom( ""it's""
+) `say ""hi""` ,string
+msg_type ,
+    }
+    MetaData
+    Logon { BodyLength
+_x `it's` , int32 body ,
+    // trailing space 
+    } root	packet body{  }
+")).
+Eval vm_compute in ("<<<M1829>>>" ++ check (runes_of_ascii "// top
 options {
     // c1a
     // c1b
-    StringPrefixLenType = u8;
-    // c5
+    LittleEndian = false;
     ArrayPrefixLenType = u8;// c9
-    FixedStringPadFromLeft = false;// c13
-    FixedStringPadChar = ' ';// c17a
+    FixedStringPadFromLeft = true;// c13
+    FixedStringPadChar = '0';
+    // c17
+}// c18
+
+packet Heartbeat {
+    // c21
+    string lastPx,
+    uint8 Qty,
+    // c27
+    i64 Acct,
+    // c30
+    char[4] Ref,// c35
 }
 
-packet Ack {
-    // c21a
-    // c21b
-    char[] tag7,// c24a
+packet Fill {
+    // c39
+    uint8 Ref,
+    Heartbeat,// c44a
+    // c44b
+    f32 OrderId,// c47
+    repeat f32 x,// c51a
+    // c51b
 }
 
-packet Reject {
-    InSym61 {
-        // c30
-        repeat Ack,// c33a
-        // c33b
-        zchar[4] f1,
-    },// c40
-}
-
-// c41
-packet Logout {
-    // c44
-    char[4] clOrdID,// c49
-}// c50
-
-root packet Cancel {
-    @leftPad(' ')
-    // c58
-    char[10] price,
-    u8 x,// c66a
-    // c66b
-    u32 venue @lengthOf(Body),// c72a
-    // c72b
+root packet Order {
+    // c56a
+    // c56b
+    zchar[2] OrderId,
+    // c61
+    zchar[2] Acct,
+    // c66
+    zchar[1] Note,
+    // c71
+    zchar[9] Qty,// c76a
+    // c76b
+    string price,// c79
+    string tag7,// c82a
+    // c82b
+    u32 x,// c85a
+    // c85b
     match x as Body {
-        [92, 175] : Logout,
-        // c85
-        26 : Reject,
-        // c89a
-        // c89b
-        144 : Ack,
-        // c93
-    },// c95
-    u16 count @calculatedFrom(""CRC32""),// c101
-}// c102a")).
-Eval vm_compute in ("<<<M1698>>>" ++ check (runes_of_ascii "// packet A { u8 x, }
-root packet leftPad {
-    @calculatedFrom(""`tick`"")
-    @rightPad()
+        // c90
+        123 : Fill,
+        // c94a
+        // c94b
+        112 : Heartbeat,
+        // c98
+    },// c100
+    u32 seqNo @calculatedFrom(""CRC32""),
+    // c106
+}// c107")).
+Eval vm_compute in ("<<<M188>>>" ++ check (runes_of_ascii "// packet A { u8 x, }
+root
+    packet
+    leftPad { @calculatedFrom(
+    //x
+    ""`tick`"" )	@rightPad( )
     // " ++ [128512]%N ++ runes_of_ascii " emoji
-    string_ @lengthOf(tag) `a\`,
-    i64 T `" ++ [233]%N ++ runes_of_ascii "`,//	t
+    string_
+// `tick` ""quote"" 'q'
+// a // b
+@lengthOf(	tag
+    ) `a\` ,i64 T
+    `" ++ [233]%N ++ runes_of_ascii "`,//	t
 }
-
-packet Pad {
-    @lengthOf(float)
-    char[] x @calculatedFrom(""a\""b""),// trailing space 
-    @tag(0)
-    // " ++ [27880; 37322]%N ++ runes_of_ascii "
-    repeatCount,
-    repeat rootA {
-        _x,
-        zchar[3] roots `crlf
-                line`,
-    },
+packet
+Pad// @lengthOf(
+{ @lengthOf(	float ) char[] x@calculatedFrom(
+    ""a\""b"")
+    , // trailing space 
+@tag(
+    0// " ++ [128512]%N ++ runes_of_ascii " emoji
+) // " ++ [27880; 37322]%N ++ runes_of_ascii "
+repeatCount// packet A { u8 x, }
+,
+repeat rootA{
+_x
+    ,zchar[3 ]roots
     /// triple
-    // a // b
-    match metadata as BodyLength {
-        [
-            10, 10, 4294967296, ""a\""b"", """",
-            ""\n"", ""a\\""
-        ] : u,
-    },
-    repeat i64_ Packet `" ++ [28040; 24687; 31867; 22411]%N ++ runes_of_ascii "`,
-    @tag(65535)
-    char[] float `it's`,
-    char[7] x @calculatedFrom(""{,}""),
+    `crlf
+line` ,
 }
-
-MetaData leftPad {
-    body rootA `crlf
-        line`,
-    int64 msg_type `doc`,
-}")).
+,
+/// triple
+// a // b
+match
+    metadata as BodyLength
+    { [
+    // c
+    10 , 10 , ""a\""b"", """"	, ""\n""
+,  ""a\\"" , 4294967296]  :
+    u
+, }
+, repeat	i64_ Packet `" ++ [28040; 24687; 31867; 22411]%N ++ runes_of_ascii "`
+,@tag( // packet A { u8 x, }
+65535)
+    char[] float`it's`
+, char[7 ]
+    x @calculatedFrom( ""{,}"" ),
+    }MetaData leftPad// a // b
+{ body rootA
+`crlf
+line`
+, int64
+msg_type
+`doc`
+    , // @lengthOf(
+}
+")).
+Eval vm_compute in ("<<<M1124>>>" ++ check (runes_of_ascii "// top
+options
+    // c0
+{ // c1
+uint8x // c2a
+  // c2b
+= 007 // c4a
+  // c4b
+; lengthOf
+    // c6
+= i8 ; // c9a
+  // c9b
+} packet i64_
+    // c12
+{ // c13
+@calculatedFrom( // c14
+""1""
+    // c15
+) // c16
+@tag( // c17
+3 )
+    // c19
+@lengthOf(
+    // c20
+rootA ) // c22
+repeat // c23
+int8 // c24a
+  // c24b
+Packet // c25a
+  // c25b
+`u8 x,` // c26
+, // c27
+} // c28a
+  // c28b
+root
+    // c29
+packet // c30a
+  // c30b
+stringy
+    // c31
+{ // c32a
+  // c32b
+@rightPad ( ' ' // c35
+) // c36
+repeat // c37a
+  // c37b
+char[ // c38
+10 // c39
+] repeatCount // c41a
+  // c41b
+, // c42
+@tag( // c43a
+  // c43b
+255
+    // c44
+) // c45
+float64
+    // c46
+msg_type
+    // c47
+@calculatedFrom( ""packet""
+    // c49
+) // c50a
+  // c50b
+, // c51a
+  // c51b
+} // c52
+")).
 Eval vm_compute in ("<<<M117>>>" ++ check (runes_of_ascii "// a // b
 packet	u128  {
     repeat chars	{i64 u8x
@@ -560,224 +604,210 @@ match BodyLength as A
     ""it's"" ] :	Foo ,
 3 : u128}	, } ,	}
 ")).
-Eval vm_compute in ("<<<M1335>>>" ++ check (runes_of_ascii "
-options {
+Eval vm_compute in ("<<<M1344>>>" ++ check (runes_of_ascii "options { 
+LittleEndian 
+=
+false;
+    ArrayPrefixLenType=  u8 ;
 
-LittleEndian = 
-false
+    FixedStringPadFromLeft
+	= true
 
 ;
-ArrayPrefixLenType
-
-= 
-u8
-    ; FixedStringPadFromLeft
-    =true;
     FixedStringPadChar
+= '0'; } packet Heartbeat{
 
-    = '0'  ; } packet
-Heartbeat
-    { string lastPx	,
-    uint8  Qty
+string
 
-    ,
-    i64
-Acct  , char[ 4] Ref ,
+    lastPx
+,  uint8
+Qty ,i64
+Acct , 
+char[
+4
+]
+    Ref,
 
-    }packet Fill{
-uint8
-Ref
-,
-Heartbeat
-,
-f32
-    OrderId 
-,
-	repeat f32 x
+    }  packet Fill	{
 
-,}
-	root packet	Order  {
+    uint8
+Ref ,
 
+Heartbeat	,
+	f32 OrderId
+
+, repeat
+	f32
+x , 
+}
+root packet
+
+Order {zchar[	2
+    ]  OrderId ,
     zchar[
 2
-
-]
-OrderId ,zchar[ 2
-]
-Acct ,
-	zchar[
-1 ]
-
-Note
-    ,	zchar[
-9  ]	Qty
-    , string	price
-
-    , string
-    tag7 , u32
-
-    x  ,	match x
-as
-Body
-	{
-    123	:Fill
-    , 112
-:
-
-    Heartbeat
-,
-}
-,u32
-seqNo@calculatedFrom(  ""CRC32"" )	, } ")).
-Eval vm_compute in ("<<<M327>>>" ++ check (runes_of_ascii "root packet asx
-    { tag body `u8 x,` , }
-packet string_ {
-    @lengthOf(
-len // a // b
-)repeat	zchar[ 42 ] u8x,zchar[ 0 ] asx
-    , } packet
-// " ++ [128512]%N ++ runes_of_ascii " emoji
-// " ++ [27880; 37322]%N ++ runes_of_ascii "
-int {repeat crc
-    { zchar float , match
-    i8i8 as rootA//x
-{ 255 : lengthOf , 1 :lengthOf
-,3
-    :
-roots , 3 : uint8x ,0
-    :As , ""`tick`"" :	repeatCount , }  , repeat
-/// triple
-//
-char[]
-falsey ,
-    u64 lengthOf ,} , @lengthOf( crc ) lengthOf i64_ , leftPad
-`crlf
-line`, }
-    root	packet zchar{ f32 _x @calculatedFrom( ""a\\"" ), }	MetaData chars // trailing space 
-{//
-}")).
-Eval vm_compute in ("<<<M328>>>" ++ check (runes_of_ascii "
-packet
-Logon { repeatCount { BodyLength
-    `crlf
-line`, }
-    , zchar a1 `u8 x,`  ,
-match Foo as Foo { ""\n"" :i8i8,[
-""abc""
-    , // trailing space 
-""CRC32"" ]
-/// triple
-// " ++ [128512]%N ++ runes_of_ascii " emoji
-: // @lengthOf(
-crc
-    [ 3 ,
-//
-// " ++ [128512]%N ++ runes_of_ascii " emoji
-""x y"", 42 , ""`tick`""
-, 1 , ""a\""b"",
-    ""CRC32"" , 255 ]:repeatCount , [// " ++ [128512]%N ++ runes_of_ascii " emoji
+    ] Acct
+,zchar[ 
 1
-// a // b
-// " ++ [27880; 37322]%N ++ runes_of_ascii "
-,007 ,
-""\n"",007 , 7 , ""// no comment"" ,
-255 ] :
-    uint8x 00
-: f32a , } ,
-    // a // b
-    uint16 Pad @lengthOf( uint8x)// packet A { u8 x, }
-`doc`  ,
-}")).
-Eval vm_compute in ("<<<M1113>>>" ++ check (runes_of_ascii "// top
-packet // c0
-float // c1
-{ // c2
-@rightPad // c3
-( // c4
-) // c5
-rootA // c6
-@lengthOf( // c7
-trueish // c8
-) // c9
-, // c10
-stringy // c11
-@lengthOf( // c12
-matchKey // c13
-) // c14
-, // c15
-char[ // c16
-4294967296 // c17
-] // c18
-pack // c19
-@lengthOf( // c20
-uint8x // c21
-) // c22
-, // c23
-} // c24
-root // c25
-packet // c26
-trueish // c27
-{ // c28
-repeat // c29
-uint64 // c30
-u128 // c31
-`line1
-line2` // c32
-, // c33
-} // c34
-")).
-Eval vm_compute in ("<<<M303>>>" ++ check (runes_of_ascii "  packet
-    tag{ } packet
-    //
-    packetx { @calculatedFrom( ""x y""
-    )@tag(
-    42 )
-@lengthOf(
-    As  ) char a1`two words` ,
-    @leftPad
-(
-    '\x00' )
-    @tag(10)
-@lengthOf( u)
-    char[] falsey // " ++ [128512]%N ++ runes_of_ascii " emoji
+]Note,
+zchar[ 9]
+
+    Qty
 ,
-    // " ++ [27880; 37322]%N ++ runes_of_ascii "
-    }//
-MetaData
-f32a {
-    string u128 , roots
-    stringy , Header body,
-    float options1
-    //	t
-    `it's`
-    ,	i8i8 options1
-`" ++ [28040; 24687; 31867; 22411]%N ++ runes_of_ascii "`
+string  price 
+,	string tag7
+
+    ,u32
+x ,match 
+x as
+
+    Body	{
+123
+:	Fill 
+,
+
+112:
+
+    Heartbeat,
+}
+
     ,
-}")).
-Eval vm_compute in ("<<<M248>>>" ++ check (runes_of_ascii "packet a1
-    { char[]	charz @calculatedFrom(
-    //x
-    """ ++ [28040; 24687]%N ++ runes_of_ascii """)
-,
-    uint8x`crlf
-line`
-    , uint64 T  `line1
-line2` ,
-    @leftPad (
-'0')
-// a // b
-/// triple
-@calculatedFrom( ""abc"" )
-@tag( 3 ) match
-int // a // b
-as len
-{ 0	:  chars, [ 10, ""a\\"",
-1 ,0 ,10 , 0
-    ] : body, 007 :
-    // a // b
-    rootA // a // b
-, } , falsey options1 , }
+
+u32 seqNo@calculatedFrom(
+	""CRC32"")
+	,	}
 ")).
+Eval vm_compute in ("<<<M66>>>" ++ check (runes_of_ascii "packet	int {// @lengthOf(
+repeat
+string
+    BodyLength
+    `a\`
+    , } packet repeatCount { @lengthOf( x_y_z ) crc ,
+    match Packet as
+Z9_{""// no comment"" :MetaDataX ,
+//	t
+// a // b
+[  00, 7]: chars ,""CRC32""
+    : zchar 42: stringy //	t
+, [ ""a\""b"",""1""// a // b
+] : u ,
+},
+@rightPad
+( ' ' )
+@lengthOf( i64_//x
+)
+    repeat
+f64
+x `two words`
+    , @calculatedFrom(""`tick`""	) int64 falsey @lengthOf(//x
+u128 ) , charz
+    {
+    //x
+    char[]
+    T
+// c
+// " ++ [27880; 37322]%N ++ runes_of_ascii "
+`a\` ,
+}
+,@lengthOf(
+    u8x)string_, repeat
+// " ++ [128512]%N ++ runes_of_ascii " emoji
+//	t
+x
+    , }
+")).
+Eval vm_compute in ("<<<M1668>>>" ++ check (runes_of_ascii "packet tag {
+    string matchKey `line1
+        line2`,
+    @tag(0)
+    // c
+    @calculatedFrom(""1"")
+    @calculatedFrom(""a\""b"")
+    float64 matchKey,
+}
+
+options {
+    crc = true
+    msg_type = true;
+}
+
+packet o {
+    match roots as calculatedFrom {
+        ""// no comment"" : msg_type,
+        ""{,}"" : u128,
+        [65535, 0123456789] : body,
+        // " ++ [128512]%N ++ runes_of_ascii " emoji
+    },
+    @rightPad(' ')
+    repeat string_ i64_,
+    @lengthOf(lengthOf)
+    @tag(255)
+    @tag(00)
+    char[] stringy,
+}")).
+Eval vm_compute in ("<<<M1874>>>" ++ check (runes_of_ascii "options {
+    rootA = 4294967296;
+    falsey = ""a\""b"";
+    As = """";
+    packetx = ""packet""
+    i8i8 = true;
+}// `tick` ""quote"" 'q'
+
+packet x {
+    repeat zchar rootA,
+    char[] pack `// not a comment`,
+    @tag(00)
+    @tag(0123456789)
+    u @calculatedFrom(""packet"") `u8 x,`,
+    Header {
+        zchar[00] body,
+        a1 @calculatedFrom(""it's"") `" ++ [233]%N ++ runes_of_ascii "`,
+    },
+}// " ++ [27880; 37322]%N ++ runes_of_ascii "
+
+MetaData A {
+    zchar matchKey ``,
+    int64 metadata,
+    char[] _x,
+}")).
+Eval vm_compute in ("<<<M1757>>>" ++ check (runes_of_ascii "options {
+    LittleEndian = false;
+    StringPrefixLenType = u8;
+    ArrayPrefixLenType = u64;
+    FixedStringPadFromLeft = false;
+    FixedStringPadChar = ' ';
+}
+
+packet Reject {
+    repeat char[4] seqNo,
+    string Px,
+}
+
+root packet Trade {
+    @rightPad('0')
+    char[2] msgKind,
+    repeat f64 price,
+    InAcct79 {
+        repeat Reject,
+        zchar[7] OrderId,
+    },
+    Reject,
+}")).
+Eval vm_compute in ("<<<M299>>>" ++ check (runes_of_ascii "// packet A { u8 x, }
+MetaData roots{ char[ 00]lengthOf
+``  , As stringy, x	calculatedFrom ,} packet i8i8	{
+crc `crlf
+line` , @rightPad// a // b
+( )zchar[ 42] falsey // trailing space 
+,
+    /// triple
+    @tag( 42 ) u32	leftPad  , @tag( 42 ) a1@lengthOf( Z9_ ) , match leftPad as crc{ [""a\""b"" , 1
+, 255
+]:	trueish ,3
+: float ,
+0 :lengthOf
+    ,
+} ,}")).
 Eval vm_compute in ("<<<M79>>>" ++ check (runes_of_ascii "packet	Pad //
 { u32 i64_
 @lengthOf(u8x) `tab	here` , T,
@@ -794,65 +824,57 @@ Eval vm_compute in ("<<<M79>>>" ++ check (runes_of_ascii "packet	Pad //
 } ,string i8i8// trailing space 
 @calculatedFrom( """ ++ [128512]%N ++ runes_of_ascii """
     ) ,packetx, } // c")).
-Eval vm_compute in ("<<<M1437>>>" ++ check (runes_of_ascii "MetaData T {
-    uint8 float,
-    repeatCount x,
-    char[10] asx,
-    char[00] metadata `" ++ [233]%N ++ runes_of_ascii "`,
-    u8x asx,
+Eval vm_compute in ("<<<M1946>>>" ++ check (runes_of_ascii "options {
+    A = i16;
 }
 
-MetaData trueish {
-    charz string_ `crlf
-        line`,
-    zchar[42] _x,
-}
-
-packet o {
-    char[] u8x @calculatedFrom(""abc""),
-}
-
-options {
-    x = 255;
-    u = '0'
-}")).
-Eval vm_compute in ("<<<M242>>>" ++ check (runes_of_ascii "packet len{} options	{ Z9_ =  4294967296;
-_x =// a // b
-0
-    f32a = zchar[42	] ; } root packet
-    // @lengthOf(
-    BodyLength // trailing space 
-{ }options {
-string_ =u32	;	charz =
 /// triple
-// packet A { u8 x, }
-string
-; } packet len { }")).
-Eval vm_compute in ("<<<M21>>>" ++ check (runes_of_ascii "packet  Logon //	t
-{pack	_x
-    ,
-Z9_ i8i8  `" ++ [28040; 24687; 31867; 22411]%N ++ runes_of_ascii "`	, } options
-    { tag	= 4294967296 ; As = string
-    ; rootA = true ; }root packet f32a { //x
-@leftPad
-// " ++ [27880; 37322]%N ++ runes_of_ascii "
-// c
-(' ') repeat _x`" ++ [233]%N ++ runes_of_ascii "`	, @rightPad ( )i8i8 len,}
-
+root packet rootA {
+    @tag(7)
+    int16 pack,
+    Logon @calculatedFrom(""a\""b"") `{ , }`,
+    @rightPad('\x00')
+    //
+    //
+    char[7] options1 `tab	here`,
+    @calculatedFrom(""" ++ [233]%N ++ runes_of_ascii "t" ++ [233]%N ++ runes_of_ascii """)
+    int @lengthOf(Packet) `crlf
+        line`,
+}")).
+Eval vm_compute in ("<<<M1864>>>" ++ check (runes_of_ascii "packet Header {
+    @calculatedFrom(""a	b"")
+    char[255] falsey `tab	here`,
+    int8 u `doc`,
+    float32 lengthOf @calculatedFrom(""a	b""),
+    @rightPad(' ')
+    @tag(3)
+    float64 asx,
+    int8 metadata @lengthOf(zchar),
+    Pad f32a,
+}")).
+Eval vm_compute in ("<<<M18>>>" ++ check (runes_of_ascii "packet roots
+// a // b
+// " ++ [128512]%N ++ runes_of_ascii " emoji
+{ // " ++ [27880; 37322]%N ++ runes_of_ascii "
+@tag(0
+)
+    repeat // `tick` ""quote"" 'q'
+zchar[
+/// triple
+//x
+0
+]x , } options { As =""\" ++ [233]%N ++ runes_of_ascii """ ;pack = ' ' ; int = // `tick` ""quote"" 'q'
+'\x00' ; options1 =
+""`tick`"" ; }")).
+Eval vm_compute in ("<<<M121>>>" ++ check (runes_of_ascii "packet u128 { @calculatedFrom(  ""a	b"" ) // packet A { u8 x, }
+@leftPad( ' '
+) //	t
+@lengthOf(
+Header // packet A { u8 x, }
+) char[10
+    ] crc@lengthOf(
+len ) , } MetaData i8i8 { }
 ")).
-Eval vm_compute in ("<<<M1826>>>" ++ check (runes_of_ascii "
-
-  packet
-// `tick` ""quote"" 'q'
-    	_x  {	//
-		repeat  zchar[
-    1 ]metadata	,	@leftPad
-(' '	)	@lengthOf( T)@lengthOf(  Z9_  ) char[] As // @lengthOf(
-
-	,
-	string 
-f32a	,
-    } ")).
 Eval vm_compute in ("<<<M152>>>" ++ check (runes_of_ascii "packet T {
 int u ,
 @calculatedFrom( ""\" ++ [233]%N ++ runes_of_ascii """ ) // `tick` ""quote"" 'q'
@@ -900,7 +922,7 @@ root packet P {
     },
 }
 ")).
-Eval vm_compute in ("<<<M512>>>" ++ check (runes_of_ascii "packet uint8x
+Eval vm_compute in ("<<<M517>>>" ++ check (runes_of_ascii "packet uint8x
 { match pack
     as msg_type	{
     0123456789 :	float
@@ -909,214 +931,233 @@ Eval vm_compute in ("<<<M512>>>" ++ check (runes_of_ascii "packet uint8x
 } packet //	t
 a1
     { } options {packetx
-    = '\x00'	; =u128 ""a	b""  ; }
+    = '\x00'	; u128""a	b"" =  ; }
 ")).
-Eval vm_compute in ("<<<M465>>>" ++ check (runes_of_ascii "packet uint8x
+Eval vm_compute in ("<<<M666>>>" ++ check (runes_of_ascii "// @lengthOf(
+packet i8i8 { u128 u128 o , }
+options { MetaDataX = true;
+    BodyLength =""packet"" x_y_z= 007
+crc //x
+= ""abc"" ;
+    msg_type =
+i16 }")).
+Eval vm_compute in ("<<<M691>>>" ++ check (runes_of_ascii "// @lengthOf(
+packet i8i8 { u128 o , }
+options f64 MetaDataX = true;
+    BodyLength =""packet"" x_y_z= 007
+crc //x
+= ""abc"" ;
+    msg_type =
+i16 }")).
+Eval vm_compute in ("<<<M707>>>" ++ check (runes_of_ascii "// @lengthOf(
+packet i8i8 { u128 o , }
+options { MetaDataX = true;
+    BodyLength =MetaData x_y_z= 007
+crc //x
+= ""abc"" ;
+    msg_type =
+i16 }")).
+Eval vm_compute in ("<<<M1772>>>" ++ check (runes_of_ascii "packet A {
+    match k as n {
+        [
+            1, ""bb"", 007, ""d"", 5,
+            ""f"", 7, ""h"", 9
+        ] : B,
+        2 : C,
+    },
+}")).
+Eval vm_compute in ("<<<M1490>>>" ++ check (runes_of_ascii "
+options {  LittleEndian  =
+true ;
+}
+	root
+packet P
+
+    {
+
+    u16 
+a ,
+
+    u32
+    Sum
+@calculatedFrom(
+""CR\
+C32"" 
+)
+,  }
+")).
+Eval vm_compute in ("<<<M223>>>" ++ check (runes_of_ascii "packet  u { repeat
+    // " ++ [128512]%N ++ runes_of_ascii " emoji
+    A , @lengthOf( lengthOf
+)
+    repeat
+    i64
+i64_
+, //
+zchar[
+3// a // b
+] body , }
+")).
+Eval vm_compute in ("<<<M970>>>" ++ check (runes_of_ascii "packet A {
+    match k as n {
+        ""x\
+y"" : B,
+        [""x\
+y"", 1] : C,
+        [1,2,3,4,5,""x\
+y""] : D,
+    },
+}")).
+Eval vm_compute in ("<<<M1173>>>" ++ check (runes_of_ascii "MetaData leftPad { chars MetaDataX , } packet repeatCount { char[ 255 ] uint8x `" ++ [233]%N ++ runes_of_ascii "` , // c
+} MetaData pack { As Foo , }")).
+Eval vm_compute in ("<<<M1319>>>" ++ check (runes_of_ascii "
+packet FooBar  {  u8
+	a , }
+    packet  foo_bar
+
+    {  u16 
+b
+
+    , } root
+	packet R{FooBar , foo_bar
+,	}
+")).
+Eval vm_compute in ("<<<M489>>>" ++ check (runes_of_ascii "packet uint8x
 { match pack
     as msg_type	{
     0123456789 :	float
 }
 ,
 } packet //	t
-
-    { } options {packetx
-    = '\x00'	; u128= ""a	b""  ; }
-")).
-Eval vm_compute in ("<<<M687>>>" ++ check (runes_of_ascii "// @lengthOf(
-packet i8i8 { u128 o , , }
-options { MetaDataX = true;
-    BodyLength =""packet"" x_y_z= 007
-crc //x
-= ""abc"" ;
-    msg_type =
-i16 }")).
-Eval vm_compute in ("<<<M685>>>" ++ check (runes_of_ascii "// @lengthOf(
+a1
+    { } options")).
+Eval vm_compute in ("<<<M683>>>" ++ check (runes_of_ascii "// @lengthOf(
 packet i8i8 { u128 o , }
 options { MetaDataX = true;
-    BodyLength =""packet"" x_y_z= 007
-crc //x
-= ""abc"" ;
-    = msg_type
-i16 }")).
-Eval vm_compute in ("<<<M650>>>" ++ check (runes_of_ascii "// @lengthOf(
-packet i8i8 { u128 o , }
-options { MetaDataX = true;
-    BodyLength =""packet"" x_y_z= 007
-crc //x
-=  ;
-    msg_type =
-i16 }")).
-Eval vm_compute in ("<<<M719>>>" ++ check (runes_of_ascii "// @lengthOf(
-packet i8i8 { u128 o , }
-options { MetaDataX = true;
-     =""packet"" x_y_z= 007
-crc //x
-= ""abc"" ;
-    msg_type =
-i16 }")).
-Eval vm_compute in ("<<<M343>>>" ++ check (runes_of_ascii "packet Header { repeat char[  0123456789 ]BodyLength`" ++ [28040; 24687; 31867; 22411]%N ++ runes_of_ascii "`/// triple
-, zchar[ 3
-    ] chars
-    ,// trailing space 
-A, } //")).
-Eval vm_compute in ("<<<M1153>>>" ++ check (runes_of_ascii "MetaData leftPad { chars MetaDataX , // c
-} packet repeatCount { char[ 255 ] uint8x `" ++ [233]%N ++ runes_of_ascii "` , } MetaData pack { As Foo , }")).
-Eval vm_compute in ("<<<M1185>>>" ++ check (runes_of_ascii "MetaData leftPad { chars MetaDataX , } packet repeatCount { char[ 255 ] uint8x `" ++ [233]%N ++ runes_of_ascii "` , } MetaData pack { As Foo // c
-, }")).
-Eval vm_compute in ("<<<M136>>>" ++ check (runes_of_ascii "// a // b
-options { // " ++ [128512]%N ++ runes_of_ascii " emoji
-calculatedFrom=
-'\x00'	; BodyLength = true ;asx // packet A { u8 x, }
-= true }")).
-Eval vm_compute in ("<<<M1385>>>" ++ check (runes_of_ascii "// top
-packet orderItem {
-    u8 a,// c5a
-}
-
-// c6
-root packet newOrder {
-    orderItem,
-    u8 x,
-}// c16")).
-Eval vm_compute in ("<<<M895>>>" ++ check (runes_of_ascii "packet A {
-  match k as n {
-    [1, ""bb"", 007, ""d"", 5, ""f"", 7, ""h"", 9, ""j"", 11] : B,
-    2 : C
-  },
-}")).
-Eval vm_compute in ("<<<M900>>>" ++ check (runes_of_ascii "packet A {
-  match k as n {
-    [1, 22, ""c c"", 4, 5, ""f"", 7, 8, ""i"", 10, 11] : B
-    2 : C
-  },
-}")).
-Eval vm_compute in ("<<<M863>>>" ++ check (runes_of_ascii "packet A {
-  match k as n {
-    [""a"", ""bb"", 007, ""d"", ""e"", 66, ""g"", ""h""] : B
-    2 : C
-  },
-}")).
-Eval vm_compute in ("<<<M842>>>" ++ check (runes_of_ascii "packet A {
-  match k as n {
-    [""a"", ""bb"", ""c c"", ""d"", ""e"", ""f"", ""g""] : B
-    2 : C
-  },
-}")).
-Eval vm_compute in ("<<<M856>>>" ++ check (runes_of_ascii "packet A {
-  match k as n {
-    [1, ""bb"", 007, ""d"", 5, ""f"", 7, ""h""] : B,
-    2 : C
-  },
-}")).
-Eval vm_compute in ("<<<M557>>>" ++ check (runes_of_ascii "
-packet
-     {match u128 as lengthOf
-{
-//	t
-// `tick` ""quote"" 'q'
-255 : x ,
-    } ,	}")).
-Eval vm_compute in ("<<<M553>>>" ++ check (runes_of_ascii "
-
-    asx {match u128 as lengthOf
-{
-//	t
-// `tick` ""quote"" 'q'
-255 : x ,
-    } ,	}")).
-Eval vm_compute in ("<<<M824>>>" ++ check (runes_of_ascii "packet A {
-  match k as n {
-    [""a"", ""bb"", 007, ""d"", ""e""] : B
-    2 : C
-  },
-}")).
-Eval vm_compute in ("<<<M464>>>" ++ check (runes_of_ascii "packet uint8x
+    BodyLength =""packet"" x_y_z= 007")).
+Eval vm_compute in ("<<<M479>>>" ++ check (runes_of_ascii "packet uint8x
 { match pack
     as msg_type	{
     0123456789 :	float
 }
 ,
-}")).
-Eval vm_compute in ("<<<M960>>>" ++ check (runes_of_ascii "packet A {
-    B b `tab
-	x`,
-    B `tab
-	x`,
-    repeat B bs `tab
-	x`,
-}")).
-Eval vm_compute in ("<<<M1904>>>" ++ check (runes_of_ascii "
-MetaData  M{ 
-u8	x
-`a
-    b
-  c` , T
-	t
-
-    `a
-    b
-  c`,
-
-}
-
-")).
-Eval vm_compute in ("<<<M784>>>" ++ check (runes_of_ascii "packet A {
+} packet //	t
+a1
+    {")).
+Eval vm_compute in ("<<<M872>>>" ++ check (runes_of_ascii "packet A {
   match k as n {
-    [""a"", 22] : B,
+    [""a"", 22, ""c c"", 4, ""e"", 66, ""g"", 8, ""i""] : B
     2 : C
   },
 }")).
-Eval vm_compute in ("<<<M775>>>" ++ check (runes_of_ascii "packet A {
-  match k as n {
-    [""a""] : B,
-    2 : C
-  },
-}")).
-Eval vm_compute in ("<<<M1242>>>" ++ check (runes_of_ascii "root packet
-    P {
-
-    char
-	c
-    , u8  x 
-,
-
-}
-")).
-Eval vm_compute in ("<<<M181>>>" ++ check (runes_of_ascii "options{ packetx=// " ++ [27880; 37322]%N ++ runes_of_ascii "
-string Logon // " ++ [27880; 37322]%N ++ runes_of_ascii "
-=  int8}")).
-Eval vm_compute in ("<<<M755>>>" ++ check (runes_of_ascii "string i8 ) } u8 [ uint32 ] } = uint8 '\x00'")).
-Eval vm_compute in ("<<<M1711>>>" ++ check (runes_of_ascii "
-options
-{
-	int	=
-char[]
-;
-}
-    //
-")).
-Eval vm_compute in ("<<<M1387>>>" ++ check (runes_of_ascii "packet A {
-    u8 x `tab
-    	x`,
-}")).
-Eval vm_compute in ("<<<M766>>>" ++ check (runes_of_ascii "Dr1UAAa-*U|u3S?xE-Vr&9^'H>gI<.E")).
-Eval vm_compute in ("<<<M1584>>>" ++ check (runes_of_ascii "  // c" ++ [133]%N ++ runes_of_ascii "
-    	packet A
-    {} ")).
-Eval vm_compute in ("<<<M1706>>>" ++ check (runes_of_ascii "MetaData	// c
-  u	{ 
-} ")).
-Eval vm_compute in ("<<<M1069>>>" ++ check (runes_of_ascii "// a// bpacket A {}")).
-Eval vm_compute in ("<<<M1133>>>" ++ check (runes_of_ascii "MetaData u
-// c
-{ }")).
-Eval vm_compute in ("<<<M1031>>>" ++ check (runes_of_ascii "packet A {
-}
-// c" ++ [11]%N)).
-Eval vm_compute in ("<<<M1014>>>" ++ check (runes_of_ascii "packet A {
-}// c" ++ [8233]%N)).
-Eval vm_compute in ("<<<M626>>>" ++ check (runes_of_ascii "
+Eval vm_compute in ("<<<M613>>>" ++ check (runes_of_ascii "
 packet
-    as")).
-Eval vm_compute in ("<<<M1060>>>" ++ check (runes_of_ascii "// c x")).
-Eval vm_compute in ("<<<M746>>>" ++ check (runes_of_ascii "UXk")).
+    asx {match u128 as lengthOf
+{
+//	t
+// `tick` ""quote"" 'q'
+255 : x ,
+    } } ,	}")).
+Eval vm_compute in ("<<<M584>>>" ++ check (runes_of_ascii "
+packet
+    asx {match u128 as {
+lengthOf
+//	t
+// `tick` ""quote"" 'q'
+255 : x ,
+    } ,	}")).
+Eval vm_compute in ("<<<M845>>>" ++ check (runes_of_ascii "packet A {
+  match k as n {
+    [""a"", 22, ""c c"", 4, ""e"", 66, ""g""] : B,
+    2 : C
+  },
+}")).
+Eval vm_compute in ("<<<M1439>>>" ++ check (runes_of_ascii "// top
+root packet P {
+    // c3
+    char c,// c6a
+    // c6b
+    u8 x,// c9
+}// c10")).
+Eval vm_compute in ("<<<M1094>>>" ++ check (runes_of_ascii "packet A { u16 // a
+ len // b
+ @lengthOf( // c
+ body // d
+ ) // e
+ `d` // f
+ , }")).
+Eval vm_compute in ("<<<M1939>>>" ++ check (runes_of_ascii "  root
+	packet
+
+P{ 
+u8
+
+    s_u8 
+, 
+repeat
+    u8
+
+r_u8
+,	u16
+
+b_len
+	,} ")).
+Eval vm_compute in ("<<<M1630>>>" ++ check (runes_of_ascii "packet A {
+    B b `x
+    `,
+    B `x
+    `,
+    repeat B bs `x
+    `,
+}")).
+Eval vm_compute in ("<<<M768>>>" ++ check (runes_of_ascii "char = char[] options char[] ] uint64 metadata match 1 zchar[ int16")).
+Eval vm_compute in ("<<<M444>>>" ++ check (runes_of_ascii "packet uint8x
+{ match pack
+    as msg_type	{
+    0123456789 :")).
+Eval vm_compute in ("<<<M776>>>" ++ check (runes_of_ascii "packet A {
+  match k as n {
+    [""a""] : B
+    2 : C
+  },
+}")).
+Eval vm_compute in ("<<<M786>>>" ++ check (runes_of_ascii "packet A { Inner { match k as n { [1,22] : B, }, }, }")).
+Eval vm_compute in ("<<<M1218>>>" ++ check (runes_of_ascii "packet body { i32 f32a `{ , }` , } options {
+// c
+}")).
+Eval vm_compute in ("<<<M693>>>" ++ check (runes_of_ascii "// @lengthOf(
+packet i8i8 { u128 o , }
+options")).
+Eval vm_compute in ("<<<M1223>>>" ++ check (runes_of_ascii "// top
+packet // c0
+x { // c2
+}
+    // c3
+")).
+Eval vm_compute in ("<<<M708>>>" ++ check (runes_of_ascii "// @lengthOf(
+packet i8i8 { u128 o ,")).
+Eval vm_compute in ("<<<M1043>>>" ++ check (runes_of_ascii "packet A {
+ u8 x `d 	`, // c 	
+}")).
+Eval vm_compute in ("<<<M1018>>>" ++ check (runes_of_ascii "packet A {
+ u8 x `d" ++ [8233]%N ++ runes_of_ascii "`, // c" ++ [8233]%N ++ runes_of_ascii "
+}")).
+Eval vm_compute in ("<<<M947>>>" ++ check (runes_of_ascii "packet A {
+    u8 x `x
+`,
+}")).
+Eval vm_compute in ("<<<M1111>>>" ++ check (runes_of_ascii "MetaData tag { } // c
+")).
+Eval vm_compute in ("<<<M1136>>>" ++ check (runes_of_ascii "MetaData u { } // c
+")).
+Eval vm_compute in ("<<<M987>>>" ++ check (runes_of_ascii "// c" ++ [160]%N ++ runes_of_ascii "
+packet A {
+}")).
+Eval vm_compute in ("<<<M1232>>>" ++ check (runes_of_ascii "packet x { } // c
+")).
+Eval vm_compute in ("<<<M1391>>>" ++ check (runes_of_ascii "packet x {
+}
+// c")).
+Eval vm_compute in ("<<<M1895>>>" ++ check (runes_of_ascii "// @lengthOf(")).
+Eval vm_compute in ("<<<M1010>>>" ++ check (runes_of_ascii "// c" ++ [8232]%N)).
+Eval vm_compute in ("<<<M735>>>" ++ check ([0]%N)).
